@@ -8,10 +8,25 @@
 (* same meaning and means the same as the START is allowed; earlier states   *)
 (* must never be altered.                                                     *)
 (***************************************************************************)
-EXTENDS Rules
-\* s: one recorded step of a walk: [outcome, hr (heap of the result tree), res, src (term the step started from),
+EXTENDS RulesImpl
+\* in-order sequence of the paths of a term's nodes (the driver names the rewritten node by its in-order index)
+RECURSIVE InOrderPaths(_,_)
+InOrderPaths(t, here) ==
+  IF IsLeafK(t.k) THEN <<here>>
+  ELSE IF IsUn(t.k) THEN <<here>> \o InOrderPaths(t.c, Append(here, "R"))
+  ELSE InOrderPaths(t.l, Append(here, "L")) \o <<here>> \o InOrderPaths(t.r, Append(here, "R"))
+\* a fold whose new constant cannot be held exactly: judged against the exact big-rational value of c1 op c2
+FoldWithinRounding(cur, s, o) ==
+  LET paths == InOrderPaths(cur, <<>>)
+      consts(t) == {x \in SubtermSet(t) : x.k = "c"}
+      new == consts(o) \ consts(cur) IN
+  IF s.rule # "fold" \/ s.k + 1 > Len(paths) \/ Cardinality(new) # 1 THEN TRUE ELSE
+  LET ex == FoldExact(cur, paths[s.k + 1])  a == ConstBQ(CHOOSE x \in new : TRUE) IN
+  ~ex.ok \/ ~a.ok \/ ApproxSame(ex, a, 12)
+\* s: one recorded step of a walk: [rule, k, outcome, hr (heap of the result tree), res, src (term the step started from),
 \*    reparse, re, changed (modifications of objects that existed before the step)]
-WalkStepClauses(start, cur, exact, s) ==
+\* ref: the term the current one must mean the same as (the start, re-based after every step that had to be judged up to rounding)
+WalkStepClauses(start, ref, cur, s) ==
   IF s.outcome # "ok" THEN {"raises_after_can_apply"} ELSE
   IF s.res = 0 THEN {"result_not_expression"} ELSE
   LET wfo == WFExprFailing(s.hr, s.res) IN
@@ -20,12 +35,16 @@ WalkStepClauses(start, cur, exact, s) ==
   \cup (IF wfo # {} THEN wfo ELSE
         LET o == TermOf(s.hr, s.res)
             fin == Finite(o)
-            ex == exact /\ ~InexactNew(cur, o)
-        IN (IF ~fin \/ ~ex \/ Same(start, o) THEN {} ELSE {IF IsEq(start) THEN "solutions_differ_from_start" ELSE "value_differs_from_start"})
+            exact == ~InexactNew(cur, o)
+            wrong == IF IsEq(start) THEN "solutions_differ_from_start" ELSE "value_differs_from_start"
+        IN (IF ~fin THEN {}
+            ELSE IF exact THEN (IF Same(ref, o) THEN {} ELSE {wrong})
+            ELSE (IF FoldWithinRounding(cur, s, o) THEN {"note_judged_up_to_rounding"} ELSE {wrong}))
       \cup (IF Vars(o) = Vars(start) THEN {} ELSE {"vars_differ_from_start"})
       \cup (IF ~fin \/ (s.reparse = "ok" /\ KnownKinds(s.re) /\ Same(o, s.re) /\ Vars(o) = Vars(s.re)) THEN {} ELSE {"roundtrip"}))
 \* the state after the step (the walk continues from the observed result)
-NextCur(cur, s) == IF s.outcome = "ok" /\ s.res # 0 /\ WFExprFailing(s.hr, s.res) = {} THEN TermOf(s.hr, s.res) ELSE cur
-NextExact(cur, exact, s) == exact /\ (IF s.outcome = "ok" /\ s.res # 0 /\ WFExprFailing(s.hr, s.res) = {}
-                                      THEN Finite(TermOf(s.hr, s.res)) /\ ~InexactNew(cur, TermOf(s.hr, s.res)) ELSE TRUE)
+StepOK(s) == s.outcome = "ok" /\ s.res # 0 /\ WFExprFailing(s.hr, s.res) = {}
+NextCur(cur, s) == IF StepOK(s) THEN TermOf(s.hr, s.res) ELSE cur
+\* re-base the reference after a step that created a constant the projection cannot hold exactly
+NextRef(ref, cur, s) == IF StepOK(s) /\ Finite(TermOf(s.hr, s.res)) /\ InexactNew(cur, TermOf(s.hr, s.res)) THEN TermOf(s.hr, s.res) ELSE ref
 =============================================================================
